@@ -22,7 +22,31 @@ RULE = ("every scenario runs with a panic hook; a panic of the code under test b
         "reorgs (all shapes of C04), completion, purge with trackers flagged as reorged, bad signatures, random")
 
 
+OPSETS = ['{"add_trig", "block_complete"}', '{"register", "block_complete"}', '{"add_trig", "block_breach"}',
+          '{"add_new", "add_trig", "block_reorged"}', '{"add_trig", "disconnect", "get"}', '{"add_new", "register", "block_complete"}']
+
+
+def lock_model(design):
+    """TowerConc.tla: the lock programs of the operations (as the code is now) have no circular wait in any interleaving of
+    the operation sets; with the lock programs of the code before the repairs TLC must find the deadlocks (vacuity check)."""
+    import os
+    from common import ToolError, tlc
+    wd = os.path.join("/verif/work", PID, "conc_model")
+    for ops in OPSETS:
+        r = tlc("TowerConc", "TowerConc.cfg", wd, workers=2, consts={"Ops": ops, "OldOrder": "FALSE"}, timeout=600)
+        if not r.ok:
+            raise ToolError("TowerConc.tla: %s for %s with the current lock programs" % (r.violated, ops))
+        design["states"] += r.distinct
+        design["transitions"] += r.generated
+        design["configs"].append({"config": "TowerConc", "ops": ops, "distinct_states": r.distinct, "result": "no circular wait"})
+    r = tlc("TowerConc", "TowerConc.cfg", wd, workers=2, consts={"Ops": OPSETS[0], "OldOrder": "TRUE"}, timeout=600)
+    if r.ok:
+        raise ToolError("TowerConc.tla with the pre-repair lock programs should deadlock (vacuity check)")
+    design["configs"].append({"config": "TowerConc/pre-repair lock orders", "ops": OPSETS[0], "expected": "deadlock", "found": str(r.violated)})
+    return design
+
+
 def main(tier, replay=None):
     import mc_tower
-    design = None if replay else mc_tower.design_stats(PID, tier)
+    design = None if replay else lock_model(mc_tower.design_stats(PID, tier))
     return towercheck.run(PID, tier, replay, scenarios, RULE, towercheck.COMMON_ASSUMPTIONS, design_stats=design)
